@@ -28,6 +28,7 @@ Definition event_eqb (a b : event) : bool :=
   match a, b with
   | ENew u x, ENew v y => str_eqb u v && list_eqb arg_eqb x y
   | ECall i x, ECall j y => Nat.eqb i j && list_eqb base_eqb x y
+  | ECfg u x, ECfg v y => str_eqb u v && list_eqb arg_eqb x y
   | _, _ => false
   end.
 
@@ -37,6 +38,7 @@ Definition spec_units (d : decl) : list (str * option str) :=      (* (unit, the
   let nested (outer : str) := join_dot [outer; s_init_args; s_sub] in
   match d_shape d with
   | ShG | ShS => [(n, None)]
+  | ShGI => []                 (* nothing is constructed *)
   | ShSN => [(nested n, Some n); (n, None)]
   | ShSNN => [(nested (nested n), Some (nested n)); (nested n, Some n); (n, None)]
   | ShGN => [(join_dot [n; s_child], Some n); (n, None)]
@@ -53,9 +55,9 @@ Definition src_base (us : list (str * option str)) (k : str) : option (str * bas
   else None.
 
 (* target key: unit.param (class group) or unit.init_args.param (class-typed value) *)
-Definition tgt_unit (us : list (str * option str)) (tk : str) : option str :=
+Definition tgt_unit (us : list (str * option str)) (sk : list str) (tk : str) : option str :=
   let q := key_parent tk in
-  if is_unit us q then Some q
+  if is_unit us q || mem_str q sk then Some q
   else if str_eqb (last (split_key q) []) s_init_args && is_unit us (key_parent q) then Some (key_parent q)
   else None.
 
@@ -69,8 +71,8 @@ Fixpoint opt_all {A} (l : list (option A)) : option (list A) :=
 Record slink := { sl_id : nat; sl_srcs : list (str * base); sl_tgt : str; sl_fn : bool }.
 Definition sl_vals (l : slink) : list base := map snd (sl_srcs l).
 
-Definition spec_link (us : list (str * option str)) (l : link) : option slink :=
-  match opt_all (map (src_base us) (l_srcs l)), tgt_unit us (l_target l) with
+Definition spec_link (us : list (str * option str)) (sk : list str) (l : link) : option slink :=
+  match opt_all (map (src_base us) (l_srcs l)), tgt_unit us sk (l_target l) with
   | Some (b :: bs), Some t => Some {| sl_id := l_id l; sl_srcs := b :: bs; sl_tgt := t; sl_fn := l_fn l |}
   | _, _ => None
   end.
@@ -94,7 +96,7 @@ Fixpoint first_cycle (us : list (str * option str)) (done todo : list slink) (k 
 Fixpoint pos_new (u : str) (log : list event) : option nat :=
   match log with
   | [] => None
-  | ENew v _ :: log' => if str_eqb u v then Some 0 else option_map S (pos_new u log')
+  | ENew v _ :: log' | ECfg v _ :: log' => if str_eqb u v then Some 0 else option_map S (pos_new u log')
   | _ :: log' => option_map S (pos_new u log')
   end.
 Fixpoint pos_call (j : nat) (log : list event) : option nat :=
@@ -108,7 +110,7 @@ Definition new_units (log : list event) : list str :=
 Definition calls (log : list event) : list (nat * list base) :=
   flat_map (fun e => match e with ECall j a => [(j, a)] | _ => [] end) log.
 Definition args_of (u : str) (log : list event) : list (nat * value) :=
-  flat_map (fun e => match e with ENew v a => if str_eqb u v then a else [] | _ => [] end) log.
+  flat_map (fun e => match e with ENew v a | ECfg v a => if str_eqb u v then a else [] | _ => [] end) log.
 
 Definition lt_opt (a b : option nat) : bool :=
   match a, b with Some i, Some j => Nat.ltb i j | _, _ => false end.
@@ -129,25 +131,31 @@ Definition link_ok (log : list event) (l : slink) : bool :=
            && lt_opt (pos_call (sl_id l) log) (pos_new (sl_tgt l) log)
       else negb (existsb (fun c => Nat.eqb (fst c) (sl_id l)) (calls log))).
 
-Definition log_ok (us : list (str * option str)) (sls : list slink) (log : list event) : bool :=
+Definition cfg_units (log : list event) : list str :=
+  flat_map (fun e => match e with ECfg u _ => [u] | _ => [] end) log.
+
+Definition log_ok (us : list (str * option str)) (sk : list str) (sls : list slink) (log : list event) : bool :=
   (* every class is constructed exactly once *)
   nodup_b (new_units log)
   && forallb (fun u => mem_str (fst u) (new_units log)) us
   && forallb (fun u => is_unit us u) (new_units log)
+  (* the never instantiated groups are never constructed; each is read exactly once *)
+  && list_eqb str_eqb (cfg_units log) sk
   && forallb (link_ok log) sls
   (* nothing else is written into a link parameter, no other compute function runs *)
   && forallb (fun e => match e with
-                       | ENew u args => forallb (fun a => existsb (fun l => Nat.eqb (sl_id l) (fst a) && str_eqb (sl_tgt l) u) sls) args
+                       | ENew u args | ECfg u args => forallb (fun a => existsb (fun l => Nat.eqb (sl_id l) (fst a) && str_eqb (sl_tgt l) u) sls) args
                        | ECall j _ => existsb (fun l => Nat.eqb (sl_id l) j && sl_fn l) sls
                        end) log.
 
 Definition link_spec_ok (ds : list decl) (ls : list link) (obs : outcome * list event) : bool :=
   let us := all_units ds in
-  match opt_all (map (spec_link us) ls) with
+  let sk := sinks_of ds in
+  match opt_all (map (spec_link us sk) ls) with
   | None => false                     (* ill-formed case: not judged as fine *)
   | Some sls =>
       match first_cycle us [] sls 0 with
       | Some k => match fst obs with OLinkErr k' => Nat.eqb k k' | _ => false end
-      | None => match fst obs with OOk => log_ok us sls (snd obs) | _ => false end
+      | None => match fst obs with OOk => log_ok us sk sls (snd obs) | _ => false end
       end
   end.
